@@ -89,6 +89,7 @@ type Engine struct {
 	iterCount    int
 	retMemo      map[*ssa.Function]*retOrigin
 	negMemo      map[*Term][]*Term
+	ctxReach     *Term
 }
 
 func NewEngine(P *Program) *Engine {
@@ -146,7 +147,23 @@ func (E *Engine) addFact(st *State, f *Term) {
 	if f.IsTrue() {
 		return
 	}
-	E.facts = append(E.facts, fact{st.reach, f})
+	// quantified conjunctions are distributed so that every piece gets its own triggers
+	if f.kind == kQuant || f.op == "and" || f.op == "or" || f.op == "=>" {
+		for _, p := range E.splitGoal(f, 48) {
+			E.facts = append(E.facts, fact{E.absReach(st), p})
+		}
+		return
+	}
+	E.facts = append(E.facts, fact{E.absReach(st), f})
+}
+
+// absReach: path condition from the start of the harness. Inside a call, states carry the path
+// condition relative to the call's entry; ctxReach is the condition under which the call happens.
+func (E *Engine) absReach(st *State) *Term {
+	if E.ctxReach == nil {
+		return st.reach
+	}
+	return E.tb.And(E.ctxReach, st.reach)
 }
 
 func (E *Engine) addObl(fr *Frame, st *State, kind, label string, goal *Term, pos token.Pos) {
@@ -172,7 +189,7 @@ func (E *Engine) addObl(fr *Frame, st *State, kind, label string, goal *Term, po
 		if len(parts) > 1 {
 			n = fmt.Sprintf("%s/%d", name, i+1)
 		}
-		E.obls = append(E.obls, &Obligation{Name: n, Kind: kind, Fn: fnName, Pos: E.P.Pos(pos), Goal: g, Reach: st.reach, NFacts: len(E.facts), Harness: E.harness.Name})
+		E.obls = append(E.obls, &Obligation{Name: n, Kind: kind, Fn: fnName, Pos: E.P.Pos(pos), Goal: g, Reach: E.absReach(st), NFacts: len(E.facts), Harness: E.harness.Name})
 	}
 }
 
@@ -302,6 +319,13 @@ func (E *Engine) execFunc(fr *Frame, st *State, args []Val) ([]Val, *State) {
 			fr.env[p] = args[i]
 		}
 	}
+	// run the body with path conditions relative to the entry of this call
+	entryReach := st.reach
+	savedCtx := E.ctxReach
+	E.ctxReach = E.absReach(st)
+	st = st.clone()
+	st.reach = E.tb.True()
+	defer func() { E.ctxReach = savedCtx }()
 	fr.entry = st.clone()
 	li := E.loops(fn)
 
@@ -401,6 +425,7 @@ func (E *Engine) execFunc(fr *Frame, st *State, args []Val) ([]Val, *State) {
 	if len(rets) == 0 {
 		out := st.clone()
 		out.reach = E.tb.False()
+		_ = entryReach
 		res := make([]Val, fn.Signature.Results().Len())
 		for i := range res {
 			res[i] = E.zero(fn.Signature.Results().At(i).Type(), fr.tenv)
@@ -414,6 +439,7 @@ func (E *Engine) execFunc(fr *Frame, st *State, args []Val) ([]Val, *State) {
 		gs = append(gs, r.st.reach)
 	}
 	out := E.mergeStates(sts, gs)
+	out.reach = E.tb.And(entryReach, out.reach)
 	n := len(rets[0].vals)
 	res := make([]Val, n)
 	for i := 0; i < n; i++ {
@@ -868,7 +894,7 @@ func (E *Engine) assumeLoaded(fr *Frame, st *State, v *Term, t types.Type) {
 		return
 	}
 	switch v.sort {
-	case SInt, SSlc:
+	case SInt, SSlc, SIfc:
 		if v.kind == kLit {
 			return
 		}
@@ -1127,5 +1153,14 @@ func (E *Engine) strLess(a, b *Term) *Term {
 
 // eq is Go's == on comparable values.
 func (E *Engine) eq(a, b *Term) *Term {
+	if a.sort == SIfc {
+		// an interface value is nil iff it has no dynamic type
+		if b == E.nilIface() {
+			return E.tb.Eq(E.ifcTag(a), E.tb.Int(0))
+		}
+		if a == E.nilIface() {
+			return E.tb.Eq(E.ifcTag(b), E.tb.Int(0))
+		}
+	}
 	return E.tb.Eq(a, b)
 }
